@@ -155,12 +155,13 @@ func (d *debouncer) cancel() {
 
 // The throttle implementation is based on this package: https://github.com/boz/go-throttle.
 type throttler struct {
-	last     time.Time
-	cond     *sync.Cond
-	duration time.Duration
-	waiting  bool
-	trailing bool
-	stop     bool
+	last      time.Time
+	cond      *sync.Cond
+	duration  time.Duration
+	waiting   bool
+	trailing  bool
+	stop      bool
+	scheduled bool
 }
 
 // NewThrottle creates a throttled function in order to limit the frequency rate at which the passed in function is invoked.
@@ -191,9 +192,19 @@ func (t *throttler) Call() {
 		if delta > t.duration {
 			t.waiting = true
 			t.cond.Broadcast()
-		} else if t.trailing {
-			t.waiting = true
-			time.AfterFunc(t.duration-delta, t.cond.Broadcast)
+		} else if t.trailing && !t.scheduled {
+			// Grant the trailing permission only once the current period is over.
+			t.scheduled = true
+			time.AfterFunc(t.duration-delta, func() {
+				t.cond.L.Lock()
+				defer t.cond.L.Unlock()
+
+				t.scheduled = false
+				if !t.stop {
+					t.waiting = true
+					t.cond.Broadcast()
+				}
+			})
 		}
 	}
 }
